@@ -231,9 +231,10 @@ func (w *wbuild) Drive(s *simrt.Sched, out *RunResult) {
 			feats = append(feats, f)
 		}
 	}
-	if w.mode != "remote" {
+	if w.mode != "remote" && w.mode != "faults" {
 		// non-hermetic commands make "the restored bytes are those of the last recorded execution"
-		// observable; that clause belongs to the write-through mirror (C08) only
+		// observable; that is a clause about the cache layer (the write-through mirror, C08; the
+		// local cache after a loss, C07), not about incremental == clean (C01)
 		delete(w.g.Features, "nonhermetic")
 	}
 	if w.mode == "twin" {
@@ -679,7 +680,7 @@ func (w *wbuild) mutateWorkspace(m *Machine) string {
 	w.lastMut = func(m2 *Machine) (string, OutSpec, string) {
 		return filepath.Join(m2.WS, sp.Pkg, o.Path), o, filepath.Join(m2.WS, sp.Pkg)
 	}
-	kind := pick(c, "wsmut-kind", "delete", "delete-parent", "modify", "truncate", "extra-file", "swap-kind", "modify-longer", "replace-other-mode")
+	kind := pick(c, "wsmut-kind", "delete", "delete-parent", "modify", "truncate", "extra-file", "swap-kind", "modify-longer", "replace-other-mode", "entry-to-symlink")
 	if kind == "swap-kind" && o.Kind != "dir" {
 		kind = "delete" // the property names "a file where a directory should be", not the reverse
 	}
@@ -717,6 +718,24 @@ func applyMutation(kind, abs string, o OutSpec, pkgDir string) {
 			os.WriteFile(filepath.Join(abs, "f0.dat"), []byte("tampered"), 0644)
 		} else {
 			os.WriteFile(abs, []byte("tampered"), 0644)
+		}
+	case "entry-to-symlink":
+		// a regular file inside a directory output was replaced by a symbolic link to a file
+		// that lives elsewhere in the checkout (restoring must replace the link, never write
+		// through it)
+		if o.Kind != "dir" {
+			os.RemoveAll(abs)
+			break
+		}
+		stray := filepath.Join(pkgDir, ".stray-file")
+		os.WriteFile(stray, []byte("not an output\n"), 0644)
+		for _, f := range []string{"f0.dat", "f1.dat", "f2.dat", "f3.dat", "e0.dat"} {
+			p := filepath.Join(abs, f)
+			if st, err := os.Lstat(p); err == nil && st.Mode().IsRegular() {
+				os.Remove(p)
+				os.Symlink(stray, p)
+				break
+			}
 		}
 	case "replace-other-mode":
 		// a stale file with other content AND the other executable bit sits at the output path
@@ -1105,7 +1124,7 @@ func (w *wbuild) checkBuild(res *InvResult, req BuildReq, opts InvOpts, cm *cach
 					w.recordedNow[kS] = true
 					if sp.NonHermetic {
 						e := ext0["epoch"]
-						if faulted || !opts.Remote || w.depToggled(u, sp) {
+						if faulted || (w.mode == "remote" && !opts.Remote) || w.depToggled(u, sp) {
 							e = "?" // recorded under faults / only locally: what the remote holds is open
 						}
 						// (keyed by the loose key: grog's key covers output-less dependencies as well)
@@ -1276,7 +1295,11 @@ func (w *wbuild) checkBuild(res *InvResult, req BuildReq, opts InvOpts, cm *cach
 			}
 			want = ev.CleanAt(l, e)
 			if got.String() != want.String() {
-				report("C08", "restored-result-is-not-the-last-recorded-one", "non-hermetic", fmt.Sprintf("%s (same cache key, output depends on the undeclared epoch) was restored, but not with the bytes of the last execution recorded for this key (epoch %s; current epoch %s): a result written by a successful build must be what the mirror hands out afterwards: %s", l, e, ext0["epoch"], listingDiff(want, got)))
+				nhProp := "C08"
+				if w.mode != "remote" {
+					nhProp = "C07"
+				}
+				report(nhProp, "restored-result-is-not-the-last-recorded-one", "non-hermetic", fmt.Sprintf("%s (same cache key, output depends on the undeclared epoch) was restored, but not with the bytes of the last execution recorded for this key (epoch %s; current epoch %s): a result written by a successful build must be what the mirror hands out afterwards: %s", l, e, ext0["epoch"], listingDiff(want, got)))
 			} else {
 				simrt.Probe("non-hermetic-target-restored-with-last-recorded-bytes")
 			}
